@@ -918,6 +918,13 @@ pub fn check_encode(
                     what: format!("encode returned Ok but the reference validator rejects the bytes: {e}"),
                     op: Some(o.clone()),
                 });
+                // an output that does not validate does not have the implied interface either (C03):
+                // typically an import whose type is not what its users need
+                f.push(Finding {
+                    class: "interface",
+                    what: format!("the output is not a valid component, its imports and exports cannot be the implied ones: {e}"),
+                    op: Some(o.clone()),
+                });
                 continue;
             }
             if opts.decode {
